@@ -24,10 +24,14 @@ META = {
         "occupy), 'sectrap' (covers and near-covers differing only in secondary usage: with the secondary taken the remaining "
         "primaries are a dead end that needs a real backtrack, with it free they have covers). Secondary "
         "columns none/some/all, given by index (columns omitted) or by name (str, reversed ints, mixed int/str/tuple, explicit "
-        "range), list or tuple containers; find_all on/off; max_solutions in {None,1,2,5}; max_iter default, small absolute "
+        "range), list or tuple containers, `secondary` ascending / reversed / shuffled / with repeated names (a few, or padded "
+        "to the number of columns and one beyond); find_all on/off; max_solutions in {None,0,1,2,5,1000, m-1, m, m+1} with m the "
+        "true number of covers (0 = no cut-off, or an empty list with FEASIBLE); max_iter default, small absolute "
         "(1..30), exactly the number of iterations the unrestricted run needs, or one less. A second sub-check enumerates the "
         "zero-column inputs ([], [[]], [[],[]]); a third one (small_scope) enumerates EVERY 0/1 matrix with <=4 rows x <=4 "
-        "columns and 5x2, 6x2 (thorough: also 7x2, 5x3, 6x3, 3x5) with every subset of secondary columns, find_all on and off "
+        "columns and 5x2, 6x2 (thorough: also 7x2, 5x3, 6x3, 3x5) with every subset of secondary columns (quick: 4x4 with at most "
+        "one secondary column), find_all on and off, and for shapes of at most 9 cells also max_solutions 0 / 1 and every "
+        "secondary name listed twice "
         "(blocks of 2048 matrices per case; counter 'matrices'). Oracle: subset DP over the rows with a primary 1 (recursive branching when "
         "more than 12 such rows) + a column-counting validity predicate; both directions for find_all, count/status mapping "
         "for max_solutions, INFEASIBLE iff no cover, MAX_ITER only with a small max_iter, inputs deep-equal afterwards, "
@@ -558,10 +562,10 @@ def run_zero(desc, ctx):
 # One "case" is a block of up to SMALL_BLOCK consecutive matrices (cell (i,j) = bit i*ncols+j of the code), so that the
 # per-case overhead of the harness is paid once per block; the number of matrices is in the counter "matrices".
 SMALL_BLOCK = 2048
-SMALL_EXTRA_CELLS = 12  # shapes with at most this many cells also get the argument-boundary calls (about 1.1e5 matrices)
+SMALL_EXTRA_CELLS = 9  # shapes with at most this many cells also get the argument-boundary calls (about 8e3 matrices)
 SMALL_STEP_LIMIT = 200_000  # per call; the largest count on /repo for these shapes is below 1 000 events (>= 200x margin)
 SMALL_SHAPES = {
-    "quick": [(r, c) for r in range(1, 5) for c in range(1, 5)] + [(5, 2), (6, 2)],  # 1.2e6 matrices
+    "quick": [(r, c) for r in range(1, 5) for c in range(1, 5)] + [(5, 2), (6, 2)],  # 4.6e5 matrices (4x4: <=1 secondary)
     "thorough": [(r, c) for r in range(1, 5) for c in range(1, 5)] + [(5, 2), (6, 2), (7, 2), (5, 3), (6, 3), (3, 5)],  # 4.6e6
 }
 
@@ -570,6 +574,8 @@ def small_cases(tier):
     for r, c in SMALL_SHAPES["thorough" if tier == "thorough" else "quick"]:
         total = 1 << (r * c)
         for secmask in range(1 << c):
+            if tier != "thorough" and r * c >= 16 and bin(secmask).count("1") > 1:
+                continue  # quick tier: 4x4 with at most one secondary column (the thorough tier takes all 16 subsets)
             for start in range(0, total, SMALL_BLOCK):
                 yield {"small": True, "nrows": r, "ncols": c, "secmask": secmask, "start": start, "count": min(SMALL_BLOCK, total - start)}
 
